@@ -1,0 +1,163 @@
+//go:build verif
+
+// Machine-checked contracts for package stun (comment-only; guarded by the
+// "verif" build tag; read by /verif/tool). They do not affect the compiled
+// package: with or without the tag this file contributes no declarations.
+
+package stun
+
+//@ func nearestPaddedValueLength
+//@   safety C01 C02 C03 C04
+//@   props C01 C02 C03 C04
+//@   pure
+//@   requires l >= 0
+//@   ensures result == pad4(l)
+
+//@ func compatAttrType
+//@   safety C01 C02
+//@   props C01 C02
+//@   pure
+//@   ensures result == compat(val)
+
+//@ func IsMessage
+//@   safety C01
+//@   props C01
+//@   pure
+//@   ensures result <==> (len(b) >= 20 && be32(b, 4) == 0x2112A442)
+
+//@ func newDecodeErr
+//@   transparent
+//@ func newAttrDecodeErr
+//@   transparent
+
+//@ func (*MessageType).ReadValue
+//@   safety C01 C19
+//@   props C01 C02 C19
+//@   requires t != nil
+//@   assigns *t
+//@   ensures t.Class == (v/16)%2 + 2*((v/256)%2)
+//@   ensures t.Method == v%16 + 16*((v/32)%8) + 128*((v/512)%32)
+
+//@ define DecodedViews(m) = len(m.Attributes) >= 0 && len(m.Raw) >= 20 + be16(m.Raw, 2)
+//@   | && start(m.Raw, len(m.Attributes)) == 20 + be16(m.Raw, 2)
+//@   | && forall(k, 0, len(m.Attributes),
+//@   |      region(m.Attributes[k].Value) == region(m.Raw)
+//@   |   && off(m.Attributes[k].Value) == off(m.Raw) + start(m.Raw, k) + 4
+//@   |   && len(m.Attributes[k].Value) == be16(m.Raw, start(m.Raw, k) + 2)
+//@   |   && 20 <= start(m.Raw, k)
+//@   |   && start(m.Raw, k) + 4 + pad4(len(m.Attributes[k].Value)) <= 20 + be16(m.Raw, 2)
+//@   |   && start(m.Raw, k+1) == start(m.Raw, k) + 4 + pad4(len(m.Attributes[k].Value)))
+
+//@ define DecodedContent(m) = m.Length == be16(m.Raw, 2)
+//@   | && forall(j, 0, 12, m.TransactionID[j] == m.Raw[8+j])
+//@   | && m.Type.Class == (be16(m.Raw,0)/16)%2 + 2*((be16(m.Raw,0)/256)%2)
+//@   | && m.Type.Method == be16(m.Raw,0)%16 + 16*((be16(m.Raw,0)/32)%8) + 128*((be16(m.Raw,0)/512)%32)
+//@   | && forall(k, 0, len(m.Attributes),
+//@   |      m.Attributes[k].Type == compat(be16(m.Raw, start(m.Raw, k)))
+//@   |   && m.Attributes[k].Length == be16(m.Raw, start(m.Raw, k) + 2))
+
+//@ func (*Message).Decode
+//@   safety C01
+//@   props C01 C08
+//@   requires m != nil
+//@   assigns m.Type, m.Length, m.TransactionID, m.Attributes, mem(m.Attributes)
+//@   ensures result == nil ==> DecodedViews(m)
+//@   ensures result == nil ==> len(m.Raw) >= 20 && be32(m.Raw, 4) == 0x2112A442
+//@   props C02
+//@   ensures result == nil <==> accept(m.Raw, len(m.Raw))
+//@   ensures result == nil ==> DecodedContent(m)
+//@   loop 0
+//@     assigns m.Attributes, mem(m.Attributes)
+//@     invariant 0 <= offset && offset <= size && size == be16(m.Raw, 2) && len(m.Raw) >= 20 + size
+//@     invariant region(b) == region(m.Raw) && off(b) == off(m.Raw) + 20 + offset && len(b) == size - offset
+//@     invariant len(m.Attributes) >= 0 && start(m.Raw, len(m.Attributes)) == 20 + offset
+//@     invariant region(m.Attributes) == loopold(region(m.Attributes)) || loopfresh(m.Attributes)
+//@     invariant tlv(m.Raw, 20, 20 + size) <==> tlv(m.Raw, 20 + offset, 20 + size)
+//@     invariant forall(k, 0, len(m.Attributes),
+//@           |   region(m.Attributes[k].Value) == region(m.Raw)
+//@           |   && off(m.Attributes[k].Value) == off(m.Raw) + start(m.Raw, k) + 4
+//@           |   && len(m.Attributes[k].Value) == be16(m.Raw, start(m.Raw, k) + 2)
+//@           |   && 20 <= start(m.Raw, k)
+//@           |   && start(m.Raw, k) + 4 + pad4(len(m.Attributes[k].Value)) <= 20 + be16(m.Raw, 2)
+//@           |   && start(m.Raw, k+1) == start(m.Raw, k) + 4 + pad4(len(m.Attributes[k].Value))
+//@           |   && m.Attributes[k].Type == compat(be16(m.Raw, start(m.Raw, k)))
+//@           |   && m.Attributes[k].Length == be16(m.Raw, start(m.Raw, k) + 2))
+//@     decreases size - offset
+
+// The copying entry points. "Copied" (C08): afterwards m.Raw holds the bytes the
+// argument had, in the region m.Raw had before or in a fresh one - never in the
+// argument's region unless that already was m.Raw's.
+
+//@ define CopiedInto(m, data) = bytes_eq_old(m.Raw, data) && (region(m.Raw) == old(region(m.Raw)) || fresh(m.Raw))
+
+//@ func Decode
+//@   safety C01
+//@   props C01 C08
+//@   assigns *m, mem(m.Raw), mem(m.Attributes)
+//@   allocates
+//@   ensures m == nil ==> result == ErrDecodeToNil
+//@   ensures m != nil ==> CopiedInto(m, data)
+//@   ensures m != nil && result == nil ==> DecodedViews(m) && be32(m.Raw, 4) == 0x2112A442
+//@   props C02
+//@   ensures m != nil ==> (result == nil <==> accept(m.Raw, len(m.Raw)))
+//@   ensures m != nil && result == nil ==> DecodedContent(m)
+
+//@ func (*Message).Write
+//@   safety C01
+//@   props C01 C08
+//@   requires m != nil
+//@   assigns *m, mem(m.Raw), mem(m.Attributes)
+//@   allocates
+//@   ensures result0 == len(tBuf)
+//@   ensures CopiedInto(m, tBuf)
+//@   ensures result1 == nil ==> DecodedViews(m) && be32(m.Raw, 4) == 0x2112A442
+//@   props C02
+//@   ensures result1 == nil <==> accept(m.Raw, len(m.Raw))
+//@   ensures result1 == nil ==> DecodedContent(m)
+
+//@ func (*Message).UnmarshalBinary
+//@   safety C01
+//@   props C01 C08
+//@   requires m != nil
+//@   assigns *m, mem(m.Raw), mem(m.Attributes)
+//@   allocates
+//@   ensures CopiedInto(m, data)
+//@   ensures result == nil ==> DecodedViews(m) && be32(m.Raw, 4) == 0x2112A442
+//@   props C02
+//@   ensures result == nil <==> accept(m.Raw, len(m.Raw))
+//@   ensures result == nil ==> DecodedContent(m)
+
+//@ func (*Message).GobDecode
+//@   safety C01
+//@   props C01 C08
+//@   requires m != nil
+//@   assigns *m, mem(m.Raw), mem(m.Attributes)
+//@   allocates
+//@   ensures CopiedInto(m, data)
+//@   ensures result == nil ==> DecodedViews(m) && be32(m.Raw, 4) == 0x2112A442
+//@   props C02
+//@   ensures result == nil <==> accept(m.Raw, len(m.Raw))
+//@   ensures result == nil ==> DecodedContent(m)
+
+//@ func (*Message).CloneTo
+//@   safety C01
+//@   props C01 C08
+//@   requires m != nil && b != nil
+//@   assigns *b, mem(b.Raw), mem(b.Attributes)
+//@   allocates
+//@   ensures bytes_eq_old(b.Raw, m.Raw) && (region(b.Raw) == old(region(b.Raw)) || fresh(b.Raw))
+//@   ensures result == nil ==> DecodedViews(b) && be32(b.Raw, 4) == 0x2112A442
+//@   props C02
+//@   ensures result == nil <==> accept(b.Raw, len(b.Raw))
+//@   ensures result == nil ==> DecodedContent(b)
+
+//@ func (*Message).ReadFrom
+//@   safety C01
+//@   props C01
+//@   requires m != nil && r != nil
+//@   assigns *m, mem(m.Raw), mem(m.Attributes)
+//@   allocates
+//@   ensures region(m.Raw) == old(region(m.Raw)) && off(m.Raw) == old(off(m.Raw)) && len(m.Raw) <= old(cap(m.Raw))
+//@   ensures result1 == nil ==> DecodedViews(m) && be32(m.Raw, 4) == 0x2112A442
+//@   props C02
+//@   ensures result1 == nil ==> accept(m.Raw, len(m.Raw)) && DecodedContent(m)
